@@ -173,6 +173,42 @@ func runC11(c *Ctx) {
 			}
 			r.Check(okArg, "R2", fname(h)+":cause-passed", c.pos(errCall), "the error CEA is built from the error CER.Parse returned", "the error CEA is not built from the cause CER.Parse reported")
 		}
+		// contradiction rule: where the parser package has an error type that wraps another error (an Unwrap
+		// method), a cause selected by comparing the error value itself with the sentinels is wrong for the
+		// wrapped form — it has to be errors.Is
+		{
+			var wrapper string
+			for _, f := range c.P.LibraryFuncs() {
+				if f.Name() != "Unwrap" || f.Signature.Recv() == nil || pkgOf(f) == nil || !strings.HasPrefix(pkgOf(f).Path(), pkgSM) {
+					continue
+				}
+				if f.Signature.Params().Len() == 0 && f.Signature.Results().Len() == 1 && isErrorType(f.Signature.Results().At(0).Type()) {
+					wrapper = flow.RecvTypeName(f.Signature)
+				}
+			}
+			key := fname(errB) + ":cause-selection-sees-through-wrapping"
+			if wrapper == "" {
+				r.Ok("R2", key, c.fpos(errB), "no error type of the state machine packages wraps another error: comparing the cause by identity is exact")
+			} else {
+				var ident ssa.Instruction
+				flow.Instrs(errB, func(in ssa.Instruction) {
+					bo, ok := in.(*ssa.BinOp)
+					if !ok || bo.Op != token.EQL && bo.Op != token.NEQ || !isErrorType(bo.X.Type()) {
+						return
+					}
+					for _, side := range []ssa.Value{bo.X, bo.Y} {
+						if gl := loadedGlobal(side); gl != nil && strings.HasPrefix(gl.Name(), "Err") {
+							ident = bo
+						}
+					}
+				})
+				if ident != nil {
+					r.Fail("R2", key, c.pos(ident), "the failure cause is selected by comparing the error value with the sentinel errors, but "+wrapper+" wraps such an error (Unwrap): a wrapped ErrNoCommonApplication / ErrNoCommonSecurity falls through to the default result code 5012")
+				} else {
+					r.Ok("R2", key, c.fpos(errB), "the cause is not selected by identity comparison although wrapping error types exist")
+				}
+			}
+		}
 	}
 
 	// ---- R3 ----
